@@ -27,9 +27,14 @@ FUNCS = ["sind", "cosd", "ellipsoidmodels", "ellipsoid_r_geocentric", "ellipsoid
          "cartposlos2geocentric"]
 NEEDED = ["Geodesy." + n for n in FUNCS]
 MODELS = ["SphericalEarth", "WGS84", "SphericalVenus", "SphericalMars", "EllipsoidMars", "SphericalJupiter"]
+# reference values, independent of typhon (WGS84: NIMA TR8350.2 first eccentricity; IAU mean radii; Mars ellipsoid of
+# the MOLA/IAU2000 figure as used by ARTS): the oracle and the table check use THESE, the real functions get typhon's own
+REF_ELL = {"SphericalEarth": (6.3781e6, 0.0), "WGS84": (6378137.0, 0.0818191908426), "SphericalVenus": (6051.8e3, 0.0),
+           "SphericalMars": (3389.5e3, 0.0), "EllipsoidMars": (3396.19e3, 0.1083), "SphericalJupiter": (69911e3, 0.0)}
 TOL_M = 0.01          # 1 cm
 TOL_DEG = 1e-7
 SIG_HEIGHT = "height-1cm-high-latitude"
+
 
 
 # ----------------------------------------------------------------------------- translator tie
@@ -188,6 +193,11 @@ def circ(a, b):
     return (a - b + 180.0) % 360.0 - 180.0
 
 
+def same_pos(p, q, geodetic=True):
+    """two (h|r, lat, lon) triples agree to the property's accuracy (1 cm, 1e-7 deg, longitude modulo 360)"""
+    return abs(p[0] - q[0]) <= TOL_M and abs(p[1] - q[1]) <= TOL_DEG and abs(circ(p[2], q[2])) <= TOL_DEG
+
+
 def gcd_tol(d_deg):
     """rounding error (degrees) of the haversine formula at central angle d: c = 2 arcsin(sqrt(a)) amplifies the
     error of a by 1/(sqrt(a) cos(c/2)) — ill-conditioned towards antipodal points, sqrt(eps) at exactly 180"""
@@ -240,9 +250,31 @@ def gen_cases(rng, n):
             pts[1] = (-pts[0][0], pts[0][1] + 180)                 # antipodal
         cases.append({"kind": "dist", "p": [list(p) for p in pts], "shift": rng.choice([rng.uniform(-360, 360), 180.0, 360.0, 1e-3]),
                       "r": rng.choice([None, 6.3781e6, loguniform(rng, 1.0, 1e8)])})
-    for _ in range(max(n // 20, 3)):
+    for i in range(max(n // 20, 4)):
         k = rng.randint(2, 5)
-        cases.append({"kind": "arrays", "model": rng.choice(MODELS), "pos": [list(gen_position(rng)) for _ in range(k * 3)], "k": k})
+        pos = [list(gen_position(rng)) for _ in range(k * 3)]
+        model = rng.choice(MODELS)
+        if i % 2 == 0:
+            # mixed convergence: one point exactly on the equator (the iteration is stationary at once) next to
+            # mid-latitude points of an eccentric ellipsoid — `while np.any(...)` must keep going for the others
+            model = rng.choice(["WGS84", "EllipsoidMars"])
+            pos[rng.randrange(len(pos))][1] = 0.0
+            pos[rng.randrange(len(pos))][1] = rng.choice([45.0, -35.0, 60.0])
+        cases.append({"kind": "arrays", "model": model, "pos": pos, "k": k})
+    for _ in range(max(n // 25, 3)):
+        cases.append({"kind": "shapes", "model": rng.choice(MODELS), "pos": [list(gen_position(rng)) for _ in range(6)]})
+    for _ in range(max(n // 10, 8)):
+        cases.append({"kind": "special", "r": loguniform(rng, 1e6, 1e8),
+                      "lat": rng.choice([90.0, -90.0, 90.0, -90.0, rng.uniform(-88, 88), 0.0, 89.99999999]),
+                      "lon": rng.choice([0.0, 180.0, -180.0, rng.uniform(-180, 180)]),
+                      "za": rng.choice([0.0, 180.0, 1e-7, 180 - 1e-7, 5e-7, 90.0, rng.uniform(1, 179)]),
+                      "aa": rng.choice([0.0, 180.0, -180.0, 90.0, -90.0, rng.uniform(-180, 180)])})
+    for _ in range(max(n // 10, 8)):
+        hint = rng.choice(["zenith", "ns", "none"])
+        za = rng.choice([0.0, 180.0]) if hint == "zenith" else rng.choice([rng.uniform(0.5, 89.5), rng.uniform(90.5, 179.5), 90.0, 45.0])
+        aa = rng.choice([0.0, 180.0]) if hint == "ns" else rng.uniform(-179, 179)
+        cases.append({"kind": "hints", "hint": hint, "r": loguniform(rng, 1e6, 1e8), "lat": rng.uniform(-88, 88),
+                      "lon": rng.uniform(-179, 179), "za": za, "aa": aa})
     cases.append({"kind": "reject"})
     return cases
 
@@ -296,12 +328,21 @@ class Judge:
             self.v(c, f"geodetic2cart({h!r},{lat!r},{lon!r},{c['model']}) = ({x!r},{y!r},{z!r}) is {dpos:.3g} m from the textbook value ({ox!r},{oy!r},{oz!r})")
             return
         if c["model"] == "WGS84":
+            # ellipsoid=None must mean WGS84 in all four functions (decided statically in the model: checked here,
+            # against the oracle's own WGS84 values through the explicit call that was just validated)
             d = tuple(sc(t) for t in g.geodetic2cart(h, lat, lon))
-            if d != (x, y, z):
-                self.v(c, f"geodetic2cart without ellipsoid differs from WGS84: {d} vs {(x, y, z)}")
+            if not math.dist(d, (x, y, z)) <= TOL_M:
+                self.v(c, f"geodetic2cart({h!r},{lat!r},{lon!r}) without ellipsoid = {d}, with WGS84 {(x, y, z)}")
             d = tuple(sc(t) for t in g.cart2geodetic(x, y, z))
-            if d != tuple(sc(t) for t in g.cart2geodetic(x, y, z, ell)):
-                self.v(c, "cart2geodetic without ellipsoid differs from WGS84")
+            if not same_pos(d, tuple(sc(t) for t in g.cart2geodetic(x, y, z, ell))):
+                self.v(c, f"cart2geodetic({x!r},{y!r},{z!r}) without ellipsoid = {d} differs from WGS84")
+            d = tuple(sc(t) for t in g.geodetic2geocentric(h, lat, lon))
+            if not same_pos(d, tuple(sc(t) for t in g.geodetic2geocentric(h, lat, lon, ell))):
+                self.v(c, f"geodetic2geocentric({h!r},{lat!r},{lon!r}) without ellipsoid = {d} differs from WGS84")
+            rr, pp, ll = (sc(t) for t in g.cart2geocentric(x, y, z))
+            d = tuple(sc(t) for t in g.geocentric2geodetic(rr, pp, ll))
+            if not same_pos(d, tuple(sc(t) for t in g.geocentric2geodetic(rr, pp, ll, ell))):
+                self.v(c, f"geocentric2geodetic({rr!r},{pp!r},{ll!r}) without ellipsoid = {d} differs from WGS84")
         # inverse
         h2, lat2, lon2 = (sc(t) for t in g.cart2geodetic(x, y, z, ell))
         self.calls.append(("cart2geodetic", (x, y, z, a, e), (h2, lat2, lon2)))
@@ -317,12 +358,12 @@ class Judge:
         # direct vs composed routes
         gc = tuple(sc(t) for t in g.geodetic2geocentric(h, lat, lon, ell))
         self.calls.append(("geodetic2geocentric", (h, lat, lon, a, e), gc))
-        if gc != (r, psi, lam):
+        if not same_pos(gc, (r, psi, lam)):
             self.v(c, f"geodetic2geocentric({h!r},{lat!r},{lon!r}) = {gc} differs from cart2geocentric(geodetic2cart(...)) = {(r, psi, lam)}")
         gd = tuple(sc(t) for t in g.geocentric2geodetic(r, psi, lam, ell))
         self.calls.append(("geocentric2geodetic", (r, psi, lam, a, e), gd))
         direct = tuple(sc(t) for t in g.cart2geodetic(x3, y3, z3, ell))
-        if gd != direct:
+        if not same_pos(gd, direct):
             self.v(c, f"geocentric2geodetic({r!r},{psi!r},{lam!r}) = {gd} differs from cart2geodetic(geocentric2cart(...)) = {direct}")
         self.roundtrip(c, "geocentric2geodetic(geodetic2geocentric(h,lat,lon))", gd, (h, lat, lon), e)
         # second stage: the real inverse functions against the oracle's own inverse at the computed point
@@ -331,7 +372,8 @@ class Judge:
             orr, opsi, olam = ans2[1]
             if not (abs(gotc[0] - orr) <= 1e-6 * max(1.0, abs(orr) * 1e-7) and abs(gotc[1] - opsi) <= TOL_DEG and abs(circ(gotc[2], olam)) <= TOL_DEG):
                 self.v(c, f"cart2geocentric({x!r},{y!r},{z!r}) = {gotc}, textbook value {(orr, opsi, olam)}")
-        self.stage2.append((c, [["cart2geodetic", x, y, z, a, e], ["cart2geocentric", x, y, z]], cb))
+        ra, re_ = REF_ELL[c["model"]]
+        self.stage2.append((c, [["cart2geodetic", x, y, z, ra, re_], ["cart2geocentric", x, y, z]], cb))
 
     def roundtrip(self, c, what, got, want, e):
         h2, lat2, lon2 = got
@@ -371,7 +413,7 @@ class Judge:
             def cb(ans2, c=c, rc=rc, psi=psi, a=a):
                 if not abs(rc - ans2[0][0]) <= 1e-9 * a:
                     self.v(c, f"ellipsoid_r_geocentric({c['model']}, {psi!r}) = {rc!r}, textbook value {ans2[0][0]!r}")
-            self.stage2.append((c, [["r_geocentric", a, e, psi]], cb))
+            self.stage2.append((c, [["r_geocentric", REF_ELL[c["model"]][0], REF_ELL[c["model"]][1], psi]], cb))
         for arr in (self.np.array([lat, -lat, 0.0]), self.np.array([[lat], [0.5 * lat]])):
             va = self.np.asarray(g.ellipsoid_r_geodetic((a, e), arr))
             if va.shape != arr.shape or abs(float(va.reshape(-1)[0]) - rg) > 1e-12 * a:
@@ -521,6 +563,166 @@ class Judge:
             if max(abs(x - Xb[1, 1]), abs(y - Yb[1, 1]), abs(z - Zb[1, 1])) > 1e-9 * a:
                 self.v(c, "geodetic2cart broadcast element [1,1] differs from the scalar call")
 
+    # ------------------------------------------------------------------ 2-D / mixed broadcast shapes, every function
+    def shapes(self, c, ans):
+        g, np = self.g, self.np
+        a, e = self.ell[c["model"]]
+        ell = (a, e)
+        P = np.array(c["pos"])                     # (6, 3): h, lat, lon
+        H, LA, LO = P[:, 0].reshape(2, 3), P[:, 1].reshape(2, 3), P[:, 2].reshape(2, 3)
+        col, row = LA[:, :1], LO[:1, :]            # (2,1) x (1,3) -> (2,3)
+        R = 6.3781e6
+
+        def close(name, arr, want, tol, shape=(2, 3), bcast=False):
+            arr = np.asarray(arr)
+            if bcast and arr.shape != shape:
+                try:            # z of geocentric2cart keeps the shape of lat: broadcast-compatible with x, y (noted in notes/C07.md)
+                    arr = np.broadcast_to(arr, shape)
+                except ValueError:
+                    pass
+            if arr.shape != shape:
+                self.v(c, f"{name}: result shape {arr.shape}, expected {shape}")
+                return False
+            for idx in np.ndindex(shape):
+                w = want(idx)
+                if not abs(float(arr[idx]) - w) <= tol(w):
+                    self.v(c, f"{name}: element {idx} = {float(arr[idx])!r}, scalar call gives {w!r}")
+                    return False
+            return True
+        # distances: 2-D x 2-D, (2,1) x (1,3), scalar x 2-D, array-valued r
+        d = g.great_circle_distance(LA, LO, LA[::-1], LO[::-1])
+        close("great_circle_distance (2,3)x(2,3)", d, lambda i: sc(g.great_circle_distance(LA[i], LO[i], LA[::-1][i], LO[::-1][i])),
+              lambda w: 1e-12 * w + 2 * gcd_tol(w))
+        d = g.great_circle_distance(col, 10.0, 20.0, row, r=np.full((2, 3), 7e6))
+        close("great_circle_distance (2,1),scalar,scalar,(1,3), r (2,3)", d,
+              lambda i: sc(g.great_circle_distance(float(col[i[0], 0]), 10.0, 20.0, float(row[0, i[1]]), r=7e6)), lambda w: 1e-9 * w + 1e-2)
+        t = g.tunnel_distance(LA, LO, LA[::-1], LO[::-1])
+        close("tunnel_distance (2,3)x(2,3)", t, lambda i: sc(g.tunnel_distance(LA[i], LO[i], LA[::-1][i], LO[::-1][i])), lambda w: 1e-9 * R)
+        t = g.tunnel_distance(col, 10.0, 20.0, row)
+        close("tunnel_distance (2,1),scalar,scalar,(1,3)", t,
+              lambda i: sc(g.tunnel_distance(float(col[i[0], 0]), 10.0, 20.0, float(row[0, i[1]]))), lambda w: 1e-9 * R)
+        t = g.tunnel_distance(float(LA[0, 0]), float(LO[0, 0]), LA, LO)
+        close("tunnel_distance scalar x (2,3)", t, lambda i: sc(g.tunnel_distance(float(LA[0, 0]), float(LO[0, 0]), LA[i], LO[i])), lambda w: 1e-9 * R)
+        # conversions with broadcast arguments
+        X, Y, Z = g.geodetic2cart(float(H[0, 0]), col, row, ell)
+        for nm, arr, k in (("x", X, 0), ("y", Y, 1), ("z", Z, 2)):
+            close(f"geodetic2cart(scalar,(2,1),(1,3)).{nm}", arr,
+                  lambda i, k=k: sc(g.geodetic2cart(float(H[0, 0]), float(col[i[0], 0]), float(row[0, i[1]]), ell)[k]), lambda w: 1e-9 * a)
+        if np.shape(X) == (2, 3) == np.shape(Y) == np.shape(Z):
+            H2, LA2, LO2 = g.cart2geodetic(X, Y, Z, ell)
+            for idx in np.ndindex(2, 3):
+                self.roundtrip(c, f"cart2geodetic on (2,3) arrays at {idx}", (float(np.asarray(H2)[idx]), float(np.asarray(LA2)[idx]), float(np.asarray(LO2)[idx])),
+                               (float(H[0, 0]), float(col[idx[0], 0]), float(row[0, idx[1]])), e)
+            Rr, Pp, Ll = g.cart2geocentric(X, Y, Z)
+            Xb, Yb, Zb = g.geocentric2cart(Rr, Pp, Ll)
+            if not (np.shape(Xb) == (2, 3) and float(np.max(np.sqrt((Xb - X) ** 2 + (Yb - Y) ** 2 + (Zb - Z) ** 2))) <= TOL_M):
+                self.v(c, "geocentric2cart(cart2geocentric(.)) on (2,3) arrays is not the identity to 1 cm")
+            G1 = g.geodetic2geocentric(float(H[0, 0]), col, row, ell)
+            close("geodetic2geocentric(scalar,(2,1),(1,3)).r", G1[0], lambda i: float(np.asarray(Rr)[i]), lambda w: TOL_M)
+            G2 = g.geocentric2geodetic(Rr, Pp, Ll, ell)
+            close("geocentric2geodetic (2,3).lat", G2[1], lambda i: float(np.asarray(LA2)[i]), lambda w: TOL_DEG)
+        Xc, Yc, Zc = g.geocentric2cart(7e6, col, row)
+        close("geocentric2cart(scalar,(2,1),(1,3)).z", Zc, lambda i: sc(g.geocentric2cart(7e6, float(col[i[0], 0]), float(row[0, i[1]]))[2]), lambda w: 1e-8, bcast=True)
+        close("geocentric2cart(scalar,(2,1),(1,3)).x", Xc, lambda i: sc(g.geocentric2cart(7e6, float(col[i[0], 0]), float(row[0, i[1]]))[0]), lambda w: 1e-8)
+        # position + LOS: 2-D arrays, (2,1) x (1,3) broadcast, scalars mixed with 1-D arrays (2-D: fixed by 561fd48)
+        lat2 = np.clip(LA, -88, 88)
+        lon2 = np.vectorize(lambda v: circ(v, 0.0))(LO)
+        za2 = 5.0 + np.abs(H) % 170.0
+        aa2 = np.vectorize(lambda v: circ(v * 0.97, 0.0))(LO[::-1])
+        P2 = g.geocentricposlos2cart(np.full((2, 3), 7e6), lat2, lon2, za2, aa2)
+        for k in range(6):
+            close(f"geocentricposlos2cart on (2,3) arrays [{k}]", P2[k],
+                  lambda i, k=k: sc(g.geocentricposlos2cart(7e6, float(lat2[i]), float(lon2[i]), float(za2[i]), float(aa2[i]))[k]),
+                  lambda w, k=k: 1e-8 if k < 3 else 1e-14)
+        if all(np.shape(t) == (2, 3) for t in P2):
+            Q2 = g.cartposlos2geocentric(*P2)
+            close("cartposlos2geocentric on (2,3) arrays: za", Q2[3], lambda i: float(za2[i]), lambda w: TOL_DEG)
+            close("cartposlos2geocentric on (2,3) arrays: lat", Q2[1], lambda i: float(lat2[i]), lambda w: TOL_DEG)
+        P3 = g.geocentricposlos2cart(7e6, lat2[:, :1], lon2[:1, :], 60.0, 70.0)
+        close("geocentricposlos2cart(scalar,(2,1),(1,3),scalar,scalar)[2]", P3[2],
+              lambda i: sc(g.geocentricposlos2cart(7e6, float(lat2[i[0], 0]), float(lon2[0, i[1]]), 60.0, 70.0)[2]), lambda w: 1e-8)
+        lat1 = np.clip(LA[0], -88, 88)
+        lon1 = np.array([circ(v, 0.0) for v in LO[0]])
+        za, aa = 10.0 + abs(float(H[0, 1])) % 160.0, circ(float(LO[1, 1]) * 0.97, 0.0)
+        p = g.geocentricposlos2cart(7e6, lat1, lon1, za, aa)
+        for k in range(6):
+            close(f"geocentricposlos2cart(scalar,(3,),(3,),scalar,scalar)[{k}]", p[k],
+                  lambda i, k=k: sc(g.geocentricposlos2cart(7e6, float(lat1[i[0]]), float(lon1[i[0]]), za, aa)[k]), lambda w: 1e-8 if k < 3 else 1e-14, (3,))
+        q = g.cartposlos2geocentric(p[0], p[1], p[2], p[3], p[4], p[5])
+        close("cartposlos2geocentric on (3,) arrays: za", q[3], lambda i: za, lambda w: TOL_DEG, (3,))
+        q1 = g.cartposlos2geocentric(p[0][:1], p[1][:1], p[2][:1], float(p[3][0]), float(p[4][0]), float(p[5][0]))
+        close("cartposlos2geocentric array position x scalar direction: za", q1[3], lambda i: za, lambda w: TOL_DEG, (1,))
+
+    # ------------------------------------------------------------------ AT the special values: poles, zenith, nadir, N-S
+    def special(self, c, ans):
+        g, np = self.g, self.np
+        r, lat, lon, za, aa = c["r"], c["lat"], c["lon"], c["za"], c["aa"]
+        p = [sc(t) for t in g.geocentricposlos2cart(r, lat, lon, za, aa)]
+        self.calls.append(("geocentricposlos2cart", (r, lat, lon, za, aa), tuple(p)))
+        if not all(math.isfinite(v) for v in p):
+            self.v(c, f"geocentricposlos2cart({r!r},{lat!r},{lon!r},{za!r},{aa!r}) = {p} is not finite")
+            return
+        if not (abs(math.sqrt(sum(v * v for v in p[:3])) - r) <= 1e-9 * r and abs(math.sqrt(sum(v * v for v in p[3:])) - 1) <= 1e-12):
+            self.v(c, f"geocentricposlos2cart({r!r},{lat!r},{lon!r},{za!r},{aa!r}) = {p}: |position| != r or |direction| != 1")
+        q = [sc(t) for t in g.cartposlos2geocentric(*p)]
+        if not all(math.isfinite(v) for v in q):
+            self.v(c, f"cartposlos2geocentric(geocentricposlos2cart({r!r},{lat!r},{lon!r},{za!r},{aa!r})) = {q} is not finite")
+            return
+        # zenith angle through arccos: sqrt(eps) near 0 / 180
+        tol_za = max(TOL_DEG, math.degrees(2 * math.sqrt(4e-16))) if min(za, 180 - za) < 1e-3 else TOL_DEG
+        if not (abs(q[0] - r) <= 1e-9 * r and abs(q[1] - lat) <= 1e-6 and abs(q[3] - za) <= tol_za and -180 <= q[2] <= 180 and -180 <= q[4] <= 180):
+            self.v(c, f"cartposlos2geocentric(geocentricposlos2cart({r!r},{lat!r},{lon!r},{za!r},{aa!r})) = {q}")
+        if abs(lat) == 90.0 and 1.0 < za < 179.0 and not abs(circ(q[4], aa)) <= 1e-6:
+            self.v(c, f"at the pole the azimuth is not recovered: {q[4]!r} vs {aa!r} for {c}")
+        # a (2,) array whose elements all take the same special branch: forward function agrees with the scalar call
+        # (the inverse raises for arrays of size >= 2 whose elements are ALL singular or mixed singular/regular — outside the
+        # claim "away from the singular cases", noted in notes/C07.md)
+        pa = g.geocentricposlos2cart(np.array([r, r]), np.array([lat, lat]), np.array([lon, lon]), np.array([za, za]), np.array([aa, aa]))
+        if any(abs(float(np.asarray(t)[1]) - v) > 1e-9 * max(abs(v), 1.0) for t, v in zip(pa, p)):
+            self.v(c, f"geocentricposlos2cart on a (2,) array differs from the scalar call at the special point {c}")
+        regular = abs(lat) < 90 - 1e-8 and 1e-6 < q[3] < 180 - 1e-6
+        if regular:
+            qa = g.cartposlos2geocentric(*pa)
+            if any(abs(circ(float(np.asarray(t)[1]), v)) > 1e-9 * max(abs(v), 1.0) + 1e-9 for t, v in zip(qa, q)):
+                self.v(c, f"cartposlos2geocentric on a (2,) array differs from the scalar call at {c}")
+
+    # ------------------------------------------------------------------ optional hints (lat0 … aa0), ppc, **kwargs
+    def hints(self, c, ans):
+        """the optional arguments (ppc, lat0 … aa0, **kwargs) are outside the property's claim (coordinator's decision; the
+        azimuth is not computed in the hint branch and ppc gives 180 - za above 90 deg, see notes/C07.md): these paths are
+        exercised for no exception, result shape and the POSITION they return, nothing is said about za / aa"""
+        g, np = self.g, self.np
+        A = lambda v: np.array([v])                                   # noqa: E731
+        r, lat, lon, za, aa = c["r"], c["lat"], c["lon"], c["za"], c["aa"]
+        p = [sc(t) for t in g.geocentricposlos2cart(r, lat, lon, za, aa)]
+        ppc = r * math.sin(math.radians(za))
+
+        def position_ok(q, what, shape=(1,)):
+            if any(np.shape(t) != shape for t in q):
+                self.v(c, f"{what}: result shapes {[np.shape(t) for t in q]}, expected {shape}")
+                return
+            q = [sc(t) for t in q]
+            if not (abs(q[0] - r) <= 1e-9 * r and abs(q[1] - lat) <= TOL_DEG and abs(circ(q[2], lon)) <= TOL_DEG):
+                self.v(c, f"{what}: position {q[:3]} for r,lat,lon = {(r, lat, lon)}")
+        position_ok(g.cartposlos2geocentric(*p, ppc=ppc), "cartposlos2geocentric(ppc=r sin za)")
+        position_ok(g.cartposlos2geocentric(*p, lat0=lat, lon0=lon, za0=za, aa0=aa), "cartposlos2geocentric with scalar hints")
+        position_ok(g.cartposlos2geocentric(*[A(v) for v in p], ppc=A(ppc), lat0=A(lat), lon0=A(lon), za0=A(za), aa0=A(aa)),
+                    "cartposlos2geocentric with ppc and array hints")
+        F = lambda v: np.full((2, 2), v)                              # noqa: E731
+        position_ok(g.cartposlos2geocentric(*[F(v) for v in p], ppc=ppc, lat0=lat, lon0=F(lon), za0=za, aa0=aa),
+                    "cartposlos2geocentric with (2,2) arrays and hints", (2, 2))
+        r3 = g.cart2geocentric(A(p[0]), A(p[1]), A(p[2]), A(lat), A(lon), A(za), A(aa))
+        if not (abs(sc(r3[0]) - r) <= 1e-9 * r and abs(sc(r3[1]) - lat) <= TOL_DEG and abs(circ(sc(r3[2]), lon)) <= TOL_DEG):
+            self.v(c, f"cart2geocentric with hints = {[sc(t) for t in r3]} for r,lat,lon = {(r, lat, lon)}")
+        # **kwargs of geodetic2geocentric reach cart2geocentric: zenith hints return (lat0, lon0) literally
+        a, e = self.ell["WGS84"]
+        k = g.geodetic2geocentric(A(100.0), A(lat), A(lon), (a, e), lat0=A(12.5), lon0=A(-33.25), za0=A(0.0), aa0=A(0.0))
+        if not (sc(k[1]) == 12.5 and sc(k[2]) == -33.25):
+            self.v(c, f"geodetic2geocentric(..., lat0=12.5, lon0=-33.25, za0=0, aa0=0) = {(sc(k[0]), sc(k[1]), sc(k[2]))}: the hints were not passed on")
+        k0 = g.geodetic2geocentric(A(100.0), A(lat), A(lon), (a, e))
+        if not (abs(sc(k[0]) - sc(k0[0])) <= 1e-9 * a):
+            self.v(c, "geodetic2geocentric with hints changes the radius")
+
     def reject(self, c, ans):
         g = self.g
         for fn, args in ((g.geocentric2cart, (0.0, 10.0, 20.0)), (g.cart2geocentric, (0.0, 0.0, 0.0)),
@@ -534,6 +736,12 @@ class Judge:
                 self.v(c, f"{getattr(fn, '__name__', 'ellipsoidmodels')}{args} was accepted")
             except Exception:
                 pass
+        # the table itself against the independent reference values
+        if sorted(self.ell) != sorted(REF_ELL):
+            self.v(c, f"ellipsoidmodels offers {sorted(self.ell)}, expected {sorted(REF_ELL)}")
+        for m, (ra, re_) in REF_ELL.items():
+            if m in self.ell and not (abs(self.ell[m][0] - ra) <= 1e-12 * ra and abs(self.ell[m][1] - re_) <= 1e-12):
+                self.v(c, f"ellipsoidmodels['{m}'] = {self.ell[m]}, reference value {(ra, re_)}")
         self.calls.append(("geocentric2cart!rejects", (0.0, 10.0, 20.0), 1.0))
         self.calls.append(("geocentric2cart!rejects", (7e6, 10.0, 20.0), 0.0))
         self.calls.append(("cart2geocentric!rejects", (0.0, 0.0, 0.0), 1.0))
@@ -559,7 +767,7 @@ def run_cases(cases, oracle, ck=None):
     J = Judge(g, np, ell)
     tasks, spans = [], []
     for c in cases:
-        t = oracle_tasks(c, ell)
+        t = oracle_tasks(c, REF_ELL)
         spans.append((len(tasks), len(tasks) + len(t)))
         tasks += t
     ans = oracle(tasks)
@@ -641,13 +849,56 @@ def main():
     ck.finish()
 
 
+def py_call(g, name, args):
+    """the REAL function behind a Float-driver request (tuple parameters re-assembled); returns a tuple of floats"""
+    import numpy as np
+    args = [float(a) for a in args]
+    if name.startswith("ellipsoidmodels."):
+        return tuple(float(t) for t in g.ellipsoidmodels()[name.split(".", 1)[1]])
+    rej = name.endswith("!rejects")
+    name = name.replace("!rejects", "")
+    ell_last = {"geodetic2cart": 3, "cart2geodetic": 3, "geodetic2geocentric": 3, "geocentric2geodetic": 3}
+    if name in ("ellipsoid_r_geocentric", "ellipsoid_r_geodetic"):
+        call = lambda: getattr(g, name)((args[0], args[1]), args[2])                       # noqa: E731
+    elif name in ell_last:
+        call = lambda: getattr(g, name)(*args[:3], (args[3], args[4]))                     # noqa: E731
+    elif name == "great_circle_distance_r":
+        call = lambda: g.great_circle_distance(*args[:4], r=args[4])                       # noqa: E731
+    else:
+        call = lambda: getattr(g, name)(*args)                                             # noqa: E731
+    if rej:
+        try:
+            with np.errstate(all="ignore"):
+                call()
+            return (0.0,)
+        except Exception:
+            return (1.0,)
+    with np.errstate(all="ignore"):
+        v = call()
+    return tuple(sc(t) for t in v) if isinstance(v, (tuple, list)) else (sc(v),)
+
+
 def replay(path):
     obj = json.load(open(path))
     c = obj.get("case")
     print(json.dumps(c, indent=1), obj.get("what"))
-    if not c or c.get("kind") == "xrun":
-        raise SystemExit(1 if c else 0)
-    viol, _ = run_cases([c], Oracle())
+    if not c:
+        # no concrete input was found then: re-examine the recorded correspondence disagreements
+        cs = [d["case"] for d in obj.get("correspondence_disagreements", []) if d.get("case", {}).get("kind") == "xrun" and "fn" in d["case"]]
+        if not cs:
+            raise SystemExit(0)
+    else:
+        cs = [c]
+    if cs[0].get("kind") == "xrun":
+        # model (compiled Float reading of the CURRENT generated files) against the real function, same doubles
+        from typhon import geodesy as g
+        ck = vlib.Check(PROP, pkg=PKG, props="Proofs.Props.C07", driver=EXE)
+        calls = [(x["fn"], tuple(x["args"]), py_call(g, x["fn"], x["args"])) for x in cs]
+        float_cross(ck, calls)
+        for d in ck.disagreements:
+            print(f"REPRODUCED: model and implementation differ: {d['what']}")
+        raise SystemExit(1 if ck.disagreements else 0)
+    viol, _ = run_cases(cs, Oracle())
     for sig, what, _c in viol:
         print(f"REPRODUCED: [{sig}] {what}")
     raise SystemExit(1 if viol else 0)
